@@ -44,6 +44,9 @@ type kase struct {
 	Sig     string `json:"sig,omitempty"` // presented signature bytes, hex
 	SigPath string `json:"sig_path,omitempty"`
 	Class   string `json:"class,omitempty"`
+	// MustReject: the presented bytes were made for another message / key or are an algebraic relative
+	// that differs from the honest group element, so they must be rejected whatever their encoding is.
+	MustReject bool `json:"must_reject,omitempty"`
 	// rt
 	Type string `json:"type,omitempty"` // seckey | id | pubkey | sig
 	Ctor string `json:"ctor,omitempty"`
@@ -144,7 +147,7 @@ func signBytes(sk *big.Int, msg []byte) []byte {
 func checkVerify(c *fw.Ctx, k kase, hpk, hsg []byte) {
 	c.Eval(1)
 	msg, pkb, sgb := unhx(k.Msg), unhx(k.Pk), unhx(k.Sig)
-	want := bytes.Equal(pkb, hpk) && bytes.Equal(sgb, hsg)
+	want := bytes.Equal(pkb, hpk) && bytes.Equal(sgb, hsg) && !k.MustReject
 	type obs struct {
 		acc   bool
 		stage string
@@ -178,8 +181,8 @@ func checkVerify(c *fw.Ctx, k kase, hpk, hsg []byte) {
 		c.Violation("C14:panic:"+o.site, "verify", fmt.Sprintf("panic %s class=%s pkpath=%s sigpath=%s", o.val, k.Class, k.PkPath, k.SigPath), k)
 	case o.acc:
 		c.Violation("C14:accept:"+k.Class, "verify",
-			fmt.Sprintf("VerifySig accepted a presentation that is not the honest one: class=%s pk(%s,%dB,honest=%v) sig(%s,%dB,honest=%v)",
-				k.Class, k.PkPath, len(pkb), bytes.Equal(pkb, hpk), k.SigPath, len(sgb), bytes.Equal(sgb, hsg)), k)
+			fmt.Sprintf("VerifySig accepted a presentation that is not the honest one: class=%s pk(%s,%dB,honest-bytes=%v) sig(%s,%dB,honest-bytes=%v) made-for-other-message-or-key=%v",
+				k.Class, k.PkPath, len(pkb), bytes.Equal(pkb, hpk), k.SigPath, len(sgb), bytes.Equal(sgb, hsg), k.MustReject), k)
 	default:
 		c.Violation("C14:reject:honest", "verify",
 			fmt.Sprintf("honest signature rejected at stage %s (pkpath=%s sigpath=%s)", o.stage, k.PkPath, k.SigPath), k)
@@ -190,8 +193,9 @@ func checkVerify(c *fw.Ctx, k kase, hpk, hsg []byte) {
 // mutant lists
 
 type mutant struct {
-	class string
-	b     []byte
+	class      string
+	b          []byte
+	mustReject bool
 }
 
 type mlist struct {
@@ -220,7 +224,21 @@ func (l *mlist) add(class string, b []byte) {
 		}
 	}
 	l.seen[string(b)] = true
-	l.out = append(l.out, mutant{class, clone(b)})
+	l.out = append(l.out, mutant{class, clone(b), false})
+}
+
+// addR adds bytes that denote a group element different from the honest one (another message, another key,
+// negation, sums): they must be rejected even if a defect made their encoding coincide with the honest bytes.
+func (l *mlist) addR(class string, b []byte) {
+	if bytes.Equal(b, l.honest) {
+		l.out = append(l.out, mutant{class, clone(b), true})
+		return
+	}
+	n := len(l.out)
+	l.add(class, b)
+	if len(l.out) > n {
+		l.out[n].mustReject = true
+	}
 }
 
 var suffixes = [][]byte{{0x00}, {0x01}, {0xff}, {0x00, 0x00}, {0x00, 0x01}, {0xff, 0xff}, {0xab, 0xcd}}
@@ -244,20 +262,16 @@ func otherMessages(m []byte) [][]byte {
 	return out
 }
 
-func g1Of(b []byte) *bn.G1 {
-	g := new(bn.G1)
-	if _, err := g.Unmarshal(b); err != nil {
-		panic("harness: own G1 bytes do not parse: " + err.Error())
-	}
-	return g
+// g1For / g2For rebuild sk*H(msg) and sk*G2 through the exported bn256 API (exactly what Sign and
+// GeneratePubkey do), so that algebraic relatives can be formed without going through the parsers under test.
+func g1For(sk *big.Int, msg []byte) *bn.G1 {
+	h := new(bn.G1)
+	h.HashToPoint(msg)
+	return new(bn.G1).ScalarMult(h, new(big.Int).Mod(sk, bigOrder))
 }
 
-func g2Of(b []byte) *bn.G2 {
-	g := new(bn.G2)
-	if _, err := g.Unmarshal(b); err != nil {
-		panic("harness: own G2 bytes do not parse: " + err.Error())
-	}
-	return g
+func g2For(sk *big.Int) *bn.G2 {
+	return new(bn.G2).ScalarBaseMult(new(big.Int).Mod(sk, bigOrder))
 }
 
 type env struct {
@@ -281,9 +295,12 @@ func sigMutants(e *env, sk *big.Int, msg []byte, hsg []byte) []mutant {
 	for _, n := range []int{63, 64, 65, 128} {
 		l.add("identity-signature", make([]byte, n))
 	}
-	sg := g1Of(hsg)
-	l.add("negated-signature", new(bn.G1).Neg(sg).Marshal())
-	l.add("doubled-signature", new(bn.G1).Add(sg, sg).Marshal())
+	sg := g1For(sk, msg)
+	if !bytes.Equal(sg.Marshal(), hsg) {
+		panic("harness: sk*H(msg) built through bn256 differs from Sign(sk,msg).Serialize()")
+	}
+	l.addR("negated-signature", new(bn.G1).Neg(sg).Marshal())
+	l.addR("doubled-signature", new(bn.G1).Add(sg, sg).Marshal())
 	oms := otherMessages(msg)
 	var oks []*big.Int
 	for _, k := range e.keys {
@@ -292,16 +309,16 @@ func sigMutants(e *env, sk *big.Int, msg []byte, hsg []byte) []mutant {
 		}
 	}
 	for _, om := range oms {
-		l.add("other-message-signature", signBytes(sk, om))
+		l.addR("other-message-signature", signBytes(sk, om))
 	}
 	for _, ok := range oks {
-		l.add("other-key-signature", signBytes(ok, msg))
+		l.addR("other-key-signature", signBytes(ok, msg))
 	}
-	s1 := g1Of(signBytes(sk, oms[0]))
-	s2 := g1Of(signBytes(oks[0], msg))
-	l.add("sum-other-message-signature", new(bn.G1).Add(sg, s1).Marshal())
-	l.add("sum-other-key-signature", new(bn.G1).Add(sg, s2).Marshal())
-	l.add("difference-other-key-signature", new(bn.G1).Add(sg, new(bn.G1).Neg(s2)).Marshal())
+	s1 := g1For(sk, oms[0])
+	s2 := g1For(oks[0], msg)
+	l.addR("sum-other-message-signature", new(bn.G1).Add(sg, s1).Marshal())
+	l.addR("sum-other-key-signature", new(bn.G1).Add(sg, s2).Marshal())
+	l.addR("difference-other-key-signature", new(bn.G1).Add(sg, new(bn.G1).Neg(s2)).Marshal())
 	xp, yp := plusP(x), plusP(y)
 	if xp != nil {
 		l.add("noncanonical-coordinate-signature", cat(xp, y))
@@ -336,21 +353,24 @@ func pkMutants(e *env, sk *big.Int, hpk []byte) []mutant {
 	for _, n := range []int{1, 64, 127, 128, 129, 256} {
 		l.add("identity-pubkey", make([]byte, n))
 	}
-	pg := g2Of(hpk)
-	l.add("negated-pubkey", new(bn.G2).Neg(pg).Marshal())
-	l.add("doubled-pubkey", new(bn.G2).Add(pg, pg).Marshal())
+	pg := g2For(sk)
+	if !bytes.Equal(pg.Marshal(), hpk) {
+		panic("harness: sk*G2 built through bn256 differs from GeneratePubkey(sk).Serialize()")
+	}
+	l.addR("negated-pubkey", new(bn.G2).Neg(pg).Marshal())
+	l.addR("doubled-pubkey", new(bn.G2).Add(pg, pg).Marshal())
 	first := true
 	for _, k := range e.keys {
 		if k.Cmp(sk) == 0 {
 			continue
 		}
 		ob := groupsig.GeneratePubkey(seckeyOf(k)).Serialize()
-		l.add("other-key-pubkey", ob)
+		l.addR("other-key-pubkey", ob)
 		if first {
 			first = false
-			og := g2Of(ob)
-			l.add("sum-other-key-pubkey", new(bn.G2).Add(pg, og).Marshal())
-			l.add("difference-other-key-pubkey", new(bn.G2).Add(pg, new(bn.G2).Neg(og)).Marshal())
+			og := g2For(k)
+			l.addR("sum-other-key-pubkey", new(bn.G2).Add(pg, og).Marshal())
+			l.addR("difference-other-key-pubkey", new(bn.G2).Add(pg, new(bn.G2).Neg(og)).Marshal())
 		}
 	}
 	co := [][]byte{hpk[0:32], hpk[32:64], hpk[64:96], hpk[96:128]}
@@ -863,6 +883,11 @@ func run(c *fw.Ctx) {
 	mk := func(x vctx, class string, pkb []byte, pp string, sgb []byte, sp string) kase {
 		return kase{Kind: "verify", Sk: hx(x.sk.Bytes()), Msg: hx(x.msg), Pk: hx(pkb), PkPath: pp, Sig: hx(sgb), SigPath: sp, Class: class}
 	}
+	mkm := func(x vctx, m mutant, suffix string, pkb []byte, pp string, sgb []byte, sp string) kase {
+		k := mk(x, m.class+suffix, pkb, pp, sgb, sp)
+		k.MustReject = m.mustReject
+		return k
+	}
 	flip := func(h []byte, bits ...int) []byte {
 		b := clone(h)
 		for _, i := range bits {
@@ -872,25 +897,35 @@ func run(c *fw.Ctx) {
 	}
 	// pass A: structured signature and public-key lists
 	for _, x := range ctxs {
-		for _, m := range sigMutants(e, x.sk, x.msg, x.hsg) {
+		var sm, pm []mutant
+		if p, v, site := fw.Try(func() { sm = sigMutants(e, x.sk, x.msg, x.hsg); pm = pkMutants(e, x.sk, x.hpk) }); p {
+			c.Violation("C14:panic:"+site, "verify", fmt.Sprintf("panic %v while forming algebraic relatives of the honest signature / key", v), mk(x, "honest", x.hpk, "bytes", x.hsg, "dsign"))
+		}
+		if sm == nil {
+			sm = []mutant{{"honest", x.hsg, false}}
+		}
+		if pm == nil {
+			pm = []mutant{{"honest", x.hpk, false}}
+		}
+		for _, m := range sm {
 			for _, sp := range sigPaths {
 				if mine() {
-					checkVerify(c, mk(x, m.class, x.hpk, "bytes", m.b, sp), x.hpk, x.hsg)
+					checkVerify(c, mkm(x, m, "", x.hpk, "bytes", m.b, sp), x.hpk, x.hsg)
 					executed()
 				}
 			}
 		}
-		for _, m := range pkMutants(e, x.sk, x.hpk) {
+		for _, m := range pm {
 			for _, pp := range pkPaths {
 				if pp == "json" && m.class == "truncated-pubkey" && !c.Thorough() {
 					continue // json = SetHexString behind quote stripping; quick keeps it for the other classes
 				}
 				if mine() {
-					checkVerify(c, mk(x, m.class, m.b, pp, x.hsg, "dsign"), x.hpk, x.hsg)
+					checkVerify(c, mkm(x, m, "", m.b, pp, x.hsg, "dsign"), x.hpk, x.hsg)
 					executed()
 				}
 				if mine() {
-					checkVerify(c, mk(x, m.class+"+identity-signature", m.b, pp, identSig, "dsign"), x.hpk, x.hsg)
+					checkVerify(c, mkm(x, m, "+identity-signature", m.b, pp, identSig, "dsign"), x.hpk, x.hsg)
 					executed()
 				}
 			}
@@ -1003,6 +1038,26 @@ func run(c *fw.Ctx) {
 			}
 			if stop {
 				finish("double flips / byte replacement")
+				return
+			}
+		}
+		// pass E: every remaining single-byte replacement of the key through the hex path (two pairings each)
+		for _, x := range ctxs {
+			for i := 0; i < len(x.hpk) && !stop; i++ {
+				for v := 0; v < 256; v++ {
+					if popcount8(byte(v)^x.hpk[i]) <= e.d || v == 0x00 || v == 0xff || v == int(x.hpk[i])^0xff {
+						continue
+					}
+					if mine() {
+						b := clone(x.hpk)
+						b[i] = byte(v)
+						checkVerify(c, mk(x, "bytereplaced-pubkey", b, "hex", x.hsg, "dsign"), x.hpk, x.hsg)
+						executed()
+					}
+				}
+			}
+			if stop {
+				finish("byte replacement of the key through the hex path")
 				return
 			}
 		}
